@@ -65,13 +65,12 @@ func runApplyFocus(p *profile.Profile, f Filt) error {
 
 // verdict of one comparison.
 type verdict struct {
-	ok        bool
-	skipped   bool   // outcome not defined by the documentation
-	alt       bool   // agreed with a reading other than applyFocus' order
-	known     string // known-defect class (the result equals the defect model)
-	clause    string
-	detail    string
-	primaryOK bool
+	ok      bool
+	skipped bool   // outcome not defined by the documentation
+	alt     bool   // agreed with a reading other than applyFocus' order
+	known   string // known-defect class (the result equals the defect model)
+	clause  string
+	detail  string
 }
 
 func relevantReadings(f Filt) []reading {
@@ -108,7 +107,14 @@ func judge(a *ap.AP, f Filt, got *ap.AP) verdict {
 	}
 	clause, detail := diff(a, exp, got)
 	if clause == "" {
-		return verdict{ok: true, primaryOK: true}
+		return verdict{ok: true}
+	}
+	if clause == "sample-dropped/frameless" {
+		// a structural predicate of its own only where frames decide (the name options)
+		clause = "sample-dropped"
+		if f.Focus != "" || f.Ignore != "" || f.Hide != "" || f.Show != "" || f.ShowFrom != "" {
+			clause = "frameless-sample-dropped"
+		}
 	}
 	for _, rd := range relevantReadings(f) {
 		if e2, ok := Apply(a, f, rd, defects{}); ok {
@@ -237,10 +243,6 @@ func (k *checker) evalLib(cs Case, a *ap.AP, o ap.Opts, via string) (got *ap.AP,
 	}
 	if err != nil {
 		c.Violationf("error/"+via, cs, "unexpected error on a valid setting: %v", err)
-		return nil, verdict{}
-	}
-	if e := p.CheckValid(); e != nil {
-		c.Violationf("result-invalid/"+strings.Join(cs.Filter.Active(), "+"), cs, "filtered profile fails CheckValid: %v", e)
 		return nil, verdict{}
 	}
 	got = ap.Abstract(p)
